@@ -58,7 +58,9 @@ CLAIMED = {
             "DESIGN.md §4 C05"),
     "C20": ("TLA+ spec Scrollable.tla (stored position, pending action, resolve-and-clamp at render; scrollbar geometry contract) model-checked "
             "by TLC for all histories within bounds; TLC trace validation (ScrollableTrace.tla) of histories executed on real Scrollable / ScrollBar "
-            "objects around row-labelled probe widgets",
+            "objects around row-labelled probe widgets, Text, Edit, Pile and ListBox children, the model state (stored position, pending key, rendering "
+            "on screen) carried along each trace; the inductive invariant of the integer core (ScrollableInd.tla) is discharged by Apalache "
+            "(base, step, implies-safe; a false claim must fail)",
             "TLC checks the after-render invariants and satisfiability/monotonicity of the bar geometry over every bounded history, and judges every "
             "render of the real widgets (every (total, height, position) swept, exhaustive two-step histories, random histories with resizes, content "
             "changes, wheel events, consuming children, fixed and flow children, ListBox under ScrollBar) for slice, bounds, reported position, bar "
